@@ -958,6 +958,21 @@ def _to_c_expr(
                     return acc
 
                 return _fold([emit(arg) for arg in n.args])
+            user_defined = ctx is not None and fname in ctx.get("function_sources", {})
+            if not user_defined and not n.keywords:
+                # Reduino.Utils.map is a floating-point affine map (Arduino's map()
+                # works on longs); round() and pow() return integers for integers.
+                if fname == "map" and len(n.args) == 5:
+                    _mark_helper("math")
+                    return "__redu_map(" + ", ".join(emit(arg) for arg in n.args) + ")"
+                if fname == "round" and len(n.args) == 1:
+                    _mark_helper("math")
+                    return f"__redu_round({emit(n.args[0])})"
+                if fname == "pow" and len(n.args) == 2:
+                    _mark_helper("math")
+                    return f"__redu_pow({emit(n.args[0])}, {emit(n.args[1])})"
+                if fname in {"map", "round", "pow"}:
+                    raise ValueError(f"{fname}() is not supported with these arguments")
             if n.keywords:
                 raise ValueError("unsupported keyword arguments in call")
             # Record the call signature wherever the call appears (not only on the
@@ -1262,6 +1277,13 @@ def _infer_expr_type(
             return "int"
         if fname in _BUILTIN_CALL_RETURN_TYPES:
             return _BUILTIN_CALL_RETURN_TYPES[fname]
+        if not (ctx is not None and fname in ctx.get("function_sources", {})):
+            if fname == "map" and len(arg_types) == 5:
+                return "float"
+            if fname == "round" and len(arg_types) == 1:
+                return "int"
+            if fname == "pow" and len(arg_types) == 2:
+                return "float" if "float" in arg_types else "int"
 
         signature = tuple(arg_types)
         if ctx is not None:
